@@ -37,6 +37,21 @@ theorem build_sem (sh cap : Nat) (cells : List Nat) :
   have n := normalize_spec (cells.map fun c => (c <<< sh, (c + 1) <<< sh))
   exact ⟨n.1, fun x => by rw [n.2, mem_map_cellRange]⟩
 
+/-- **Appending to an existing MOC** (`append_fixed_depth_cells`): same MOC as building the union from scratch,
+    whatever the order, duplicates and capacity. -/
+theorem append_sem (sh cap : Nat) (moc : List Rng) (hm : Canon moc) (cells : List Nat) :
+    Canon (appendFixedDepthCells sh cap moc cells) ∧
+    ∀ x, mem x (appendFixedDepthCells sh cap moc cells) ↔ mem x moc ∨ x / 2 ^ sh ∈ cells :=
+  appendFixedDepthCells_spec sh cap moc hm cells
+
+/-- … in particular it equals the union of the MOC with the MOC built from the cells alone. -/
+theorem append_eq_union (sh cap cap' : Nat) (moc : List Rng) (hm : Canon moc) (cells : List Nat) :
+    appendFixedDepthCells sh cap moc cells = union moc (fromFixedDepthCells sh cap' cells) := by
+  have a := append_sem sh cap moc hm cells
+  have b := build_sem sh cap' cells
+  have u := union_spec moc _ hm b.1
+  exact Canon.ext a.1 u.1 (fun x => by rw [a.2, u.2, b.2])
+
 /-- **Range builder** (`RangeMocBuilder`, `from_maxdepth_ranges`, hence `from_cells` and the time /
     frequency range builders): for EVERY sequence of non-empty ranges and EVERY buffer capacity, the MOC
     built is the normal form of the union of the pushed ranges degraded to the builder depth. -/
